@@ -102,8 +102,9 @@ func (blockExec *BlockExecutor) CreateProposalBlock(
 
 	evidence, evSize := blockExec.evpool.PendingEvidence(state.ConsensusParams.Evidence.MaxBytes)
 
-	// Fetch a limited amount of valid txs
-	maxDataBytes := types.MaxDataBytes(maxBytes, evSize, state.Validators.Size())
+	// Fetch a limited amount of valid txs. The block carries the commit for the
+	// previous height, which has one signature slot per validator of that height.
+	maxDataBytes := types.MaxDataBytes(maxBytes, evSize, state.LastValidators.Size())
 
 	txs := blockExec.mempool.ReapMaxBytesMaxGas(maxDataBytes, maxGas)
 
